@@ -18,6 +18,7 @@
 //   t               every connected peer sends a keep-alive, then virtual time moves just past the
 //                   next 2-minute download tick (do_peer_exchange + keep-alives / read timeout)
 //   d<i>            the peer closes its socket
+//   P1 / P0         the client calls Download::set_pex_enabled(true / false)
 //   w<i>:0 / w<i>:inf  the library-side socket of peer i accepts no more bytes / is unlimited again
 // Output: per op  "<op> => <events> # <snapshot>" joined by " ; ".
 //   events: E<i>(id=..,k=v,..,pay=<len>:<md5>) per extended message a peer received; X<i> peer saw EOF
@@ -282,6 +283,10 @@ static std::string run_case(Session& S, const std::string& line) {
           if (pk.second.w && pk.second.w->fd != -1) pk.second.send(WirePeer::keepalive());
         pump_all();
         to_pex_tick();
+        pump_all();
+      } else if (k == 'P') {
+        // the client applies its PEX setting through the public API (rtorrent does so for every download)
+        dl.set_pex_enabled(op.size() > 1 && op[1] == '1');
         pump_all();
       } else {
         int idx = op[1] - '0';
